@@ -12,22 +12,38 @@ Modelled branch by branch, in the order of the code:
   * declared headers except the one named exactly "Content-Type", in sorted name order, first error returned
     (also under MultiError: the option only reaches the schema visitor and never changes the verdict):
       - header described by `content` (no schema): only presence is checked (finding #22, fixed);
-      - decode error → error; found → Schema.VisitJSON(decoded value) WITHOUT VisitAsResponse, where a present header
-        whose decoding yields no value (no `type` in the schema, or an empty string) is visited as `null`;
+      - decodeValue with the header decoder (simple style, not exploded), modelled below for every schema of the
+        fragment except `type: object` (`decodeHeader`): no `type` → no value; primitive → parsePrimitive (empty text →
+        no value, strconv.ParseInt base 10 / 64 bit, the twelve ParseBool words, the text itself); array →
+        strings.Split(",") and parseArray (first item that is empty or untyped → no value, first item that does not
+        parse → error, `items` absent → nil dereference, an explicit `panic` outcome); object → DecodeObject:
+        propsFromString (name,value,… — or name=value,… when exploded; a later duplicate replaces an earlier one),
+        makeObject / buildResObj over the declared properties and, when additionalProperties is a schema, over the
+        other names (primitive → parsePrimitive, absent / empty / untyped → no entry, object-typed → the text itself,
+        array-typed → error; names outside the schema are dropped; the empty name under a non-object
+        additionalProperties schema → error, because its lookup path is empty and yields the whole parameter map; the
+        two remaining uses of the empty name — a declared property `""`, or `""` under an object-typed
+        additionalProperties schema — re-enter buildResObj on the whole map and are an input, `Hdr.emptyNameDec`);
+      - decode error → error; found → Schema.VisitJSON(decoded value, VisitAsResponse [, DisableWriteOnlyValidation])
+        (headers are response data since the fix of finding F-C08-2, commit 35101a0), where a present header
+        whose decoding yields no value is visited as `null`;
       - not found and required → error;
   * ExcludeResponseBody → nil; empty content map → nil; Content.Get(Content-Type) = nil → error;
     media type without schema → nil;
-  * body read (a failing reader leaves input.Body nil), SetBodyBytes, decodeBody error → error,
-    Schema.VisitJSON(value, VisitAsResponse [, DisableWriteOnlyValidation]).
+  * body read (a failing reader leaves input.Body nil), SetBodyBytes, decodeBody (the decoder registered for the
+    text of the Content-Type header before its first ';' — registry `reg`, regenerated table BodyDecoders; none →
+    error; PlainBodyDecoder / FileBodyDecoder → the bytes as a string; any other decoder → input `bodyDec`) error →
+    error, Schema.VisitJSON(value, VisitAsResponse [, DisableWriteOnlyValidation]).
 Schema fragment (every construct the response-side rules touch): `type` (absent or one of boolean, integer,
 string, array, object), `nullable`, `readOnly`, `writeOnly`, `maxLength`, `maximum`, `properties`, `required`,
 `additionalProperties` (absent/true/false/schema), `items`.  For this fragment the verdict of visitJSON is
 mode-independent (fail-fast / first error / multi-error give the same accept/reject), so one Bool function models it.
 
 Inputs of the model that stand for other properties' subject matter:
-  * `Hdr.dec`  — outcome of the simple-style decoding of a present header's first value (C05);
-  * `Input.bodyDec` — outcome of decodeBody on the body bytes under the response's Content-Type (C06);
-  * `canon` — http.CanonicalHeaderKey.
+  * `Hdr.emptyNameDec` — outcome of DecodeObject in the corner where a schema is applied to the empty property name
+    (see above; C05); no generated case reaches it;
+  * `Input.bodyDec` — outcome of the JSON (or other non-text) decoder registered for the Content-Type (C06);
+  * `canon` — http.CanonicalHeaderKey; `reg` — the body-decoder registry (media type ↦ decoder name).
 -/
 namespace KinModel.Response
 
@@ -186,16 +202,177 @@ def contentGet (c : List (String × α)) (mime : String) : Option α :=
 
 /-! ### ValidateResponse -/
 
-/-- outcome of decoding a header value / a body: error, no value (Go nil), a value -/
+/-- outcome of decoding a header value / a body: error, no value (Go nil), a value; `panic`: the decoder
+dereferences nil (header arrays without `items` only) -/
 inductive Dec where
-  | err | nil | val (v : J)
+  | err | nil | val (v : J) | panic
+
+/-! #### simple-style decoding of a header value (decodeValue → headerParamDecoder → parsePrimitive / parseArray) -/
+
+def digitVal (c : Char) : Option Nat :=
+  if '0' ≤ c ∧ c ≤ '9' then some (c.toNat - '0'.toNat) else none
+
+def digitsVal : List Char → Nat → Option Nat
+  | [], acc => some acc
+  | c :: cs, acc => match digitVal c with | some d => digitsVal cs (acc * 10 + d) | none => none
+
+/-- an optional sign -/
+def splitSign : List Char → Bool × List Char
+  | '-' :: r => (true, r)
+  | '+' :: r => (false, r)
+  | r => (false, r)
+
+/-- strconv.ParseInt(raw, 10, 64): optional sign, at least one ASCII digit, nothing else, within int64 -/
+def parseInt64 (cs : List Char) : Option Int :=
+  let sd := splitSign cs
+  if sd.2.isEmpty then none else
+  match digitsVal sd.2 0 with
+  | none => none
+  | some n =>
+    if sd.1 then (if n ≤ 9223372036854775808 then some (-(n : Int)) else none)
+    else (if n ≤ 9223372036854775807 then some (n : Int) else none)
+
+/-- strconv.ParseBool -/
+def parseBoolWord (s : String) : Option Bool :=
+  if s ∈ ["1", "t", "T", "TRUE", "true", "True"] then some true
+  else if s ∈ ["0", "f", "F", "FALSE", "false", "False"] then some false
+  else none
+
+/-- parsePrimitive(raw, schema) for a schema with the `type` t -/
+def parsePrim (t : Ty) (raw : String) : Dec :=
+  if raw = "" then .nil else
+  match t with
+  | .any => .nil      -- `schema.Value.Type.Slice()` is empty: the loop body never runs
+  | .integer => (match parseInt64 raw.toList with | some n => .val (.num n) | none => .err)
+  | .boolean => (match parseBoolWord raw with | some b => .val (.bool b) | none => .err)
+  | .string => .val (.str raw)
+  | .array => .err    -- "schema has non primitive type"
+  | .object => .err
+
+/-- strings.Split(raw, d) for a one-character separator, on characters -/
+def splitChars (d : Char) : List Char → List (List Char)
+  | [] => [[]]
+  | c :: cs =>
+    match splitChars d cs with
+    | [] => [[]]
+    | h :: t => if c = d then [] :: h :: t else (c :: h) :: t
+
+def splitOn (d : Char) (raw : String) : List String := (splitChars d raw.toList).map String.ofList
+
+def splitComma (raw : String) : List String := splitOn ',' raw
+
+def consItem (x : J) : Dec → Dec
+  | .val (.arr xs) => .val (.arr (.cons x xs))
+  | d => d
+
+/-- parseArray: items left to right; the first one that yields no value, an error or a nil dereference decides -/
+def parseArr (it : OSch) : List String → Dec
+  | [] => .val (.arr .nil)
+  | v :: r =>
+    match it with
+    | .none => if v = "" then .nil else .panic   -- parsePrimitive(v, nil): `schema.Value` after the empty-text check
+    | .some s =>
+      match parsePrim s.core.ty v with
+      | .val x => consItem x (parseArr it r)
+      | d => d
+
+/-- propsFromString, propDelim = valueDelim = ",": names and values alternate; an odd number of pieces is malformed -/
+def pairUp : List String → Option (List (String × String))
+  | [] => some []
+  | [_] => none
+  | k :: v :: r => (pairUp r).map ((k, v) :: ·)
+
+/-- propsFromString, exploded: every piece is `name=value` (exactly one '=') -/
+def mapKV : List String → Option (List (String × String))
+  | [] => some []
+  | p :: r =>
+    match splitOn '=' p with
+    | [k, v] => (mapKV r).map ((k, v) :: ·)
+    | _ => none
+
+def propsFromString (explode : Bool) (raw : String) : Option (List (String × String)) :=
+  if explode then mapKV (splitComma raw) else pairUp (splitComma raw)
+
+/-- `props[name]` of the Go map the pairs were stored into: the last occurrence wins -/
+def lastVal (k : String) : List (String × String) → Option String
+  | [] => none
+  | (k', v) :: r => match lastVal k r with | some x => some x | none => if k = k' then some v else none
+
+/-- buildResObj for one name of a flat object: `nil` = no entry in the result -/
+def buildProp (p : Sch) : Option String → Dec
+  | none => .nil
+  | some t =>
+    match p.core.ty with
+    | .array => .err              -- "array items must be set with indexes"
+    | .object => .val (.str t)    -- "not the expected type, but return it either way"
+    | ty => parsePrim ty t
+
+def KVs.append : KVs → KVs → KVs
+  | .nil, b => b
+  | .cons k v r, b => .cons k v (KVs.append r b)
+
+/-- the loop over schema.Properties (a Go map: one entry per name — `seen` skips a repeated name of the list) -/
+def buildDeclared (pairs : List (String × String)) : Props → List String → Option KVs
+  | .nil, _ => some .nil
+  | .cons k p r, seen =>
+    if k ∈ seen then buildDeclared pairs r seen else
+    match buildProp p (lastVal k pairs) with
+    | .val x => (buildDeclared pairs r (k :: seen)).map (KVs.cons k x)
+    | .nil => buildDeclared pairs r (k :: seen)
+    | _ => none
+
+/-- the loop over the other names of the value, when additionalProperties is a schema -/
+def buildAddl (pairs : List (String × String)) (ps : Props) (a : Sch) : List String → List String → Option KVs
+  | [], _ => some .nil
+  | k :: ks, seen =>
+    if k ∈ seen || (ps.lookup k).isSome then buildAddl pairs ps a ks seen else
+    if k = "" then none   -- the path of the empty name is empty: deepGet yields the map, not a string
+    else match buildProp a (lastVal k pairs) with
+    | .val x => (buildAddl pairs ps a ks (k :: seen)).map (KVs.cons k x)
+    | .nil => buildAddl pairs ps a ks (k :: seen)
+    | _ => none
+
+/-- a schema is applied to the empty property name in a way that re-enters buildResObj on the whole map -/
+def emptyNameCorner (s : Sch) (pairs : List (String × String)) : Bool :=
+  (s.props.lookup "").isSome ||
+  (match s.addl with
+   | .some a => a.core.ty == .object && pairs.any (fun kv => kv.1 = "")
+   | .none => false)
+
+/-- DecodeObject of the header decoder (simple style) for a flat object schema; `corner` = its outcome in the
+empty-name corner -/
+def decodeObject (s : Sch) (explode : Bool) (raw : String) (corner : Dec) : Dec :=
+  match propsFromString explode raw with
+  | none => .err
+  | some pairs =>
+    if emptyNameCorner s pairs then corner else
+    match buildDeclared pairs s.props [] with
+    | none => .err
+    | some d =>
+      match s.addl with
+      | .none => .val (.obj d)
+      | .some a =>
+        match buildAddl pairs s.props a (pairs.map (·.1)) [] with
+        | none => .err
+        | some e => .val (.obj (d.append e))
+
+/-- decodeValue with the header decoder on the header's first value `raw` -/
+def decodeHeader (s : Sch) (explode : Bool) (raw : String) (corner : Dec) : Dec :=
+  match s.core.ty with
+  | .any => .nil
+  | .array => (match parseArr s.items (splitComma raw) with | .val (.arr .nil) => .nil | d => d)
+  | .object => decodeObject s explode raw corner
+  | t => parsePrim t raw
 
 structure Hdr where
   name : String
   required : Bool
   /-- `none`: the header is described by `content` -/
   schema : Option Sch
-  dec : Dec
+  /-- `explode: true` of the header object (matters for object-valued headers only) -/
+  explode : Bool := false
+  /-- outcome of DecodeObject where a schema is applied to the empty property name (`emptyNameCorner`) -/
+  emptyNameDec : Dec := .err
 
 structure MediaType where
   schema : Option Sch
@@ -220,12 +397,13 @@ structure Input where
   body : String
   /-- the body reader returns an error -/
   readFails : Bool
-  /-- decodeBody on those bytes under the Content-Type header (`nil` does not occur) -/
+  /-- what the registered decoder makes of those bytes when it is not one of the two text decoders
+  (`nil`, `panic` do not occur) -/
   bodyDec : Dec
 
 inductive Err where
   | statusNotSupported | hdrMissing (n : String) | hdrDecode (n : String) | hdrSchema (n : String)
-  | ctUndeclared | bodyRead | bodyDecode | bodySchema
+  | hdrPanic (n : String) | ctUndeclared | bodyRead | bodyDecode | bodySchema
   deriving DecidableEq, Repr
 
 structure Out where
@@ -237,17 +415,19 @@ structure Out where
 def present (canon : String → String) (hdrs : List (String × String)) (h : Hdr) : Bool :=
   (lookup (canon h.name) hdrs).isSome
 
-/-- validateResponseHeader -/
+/-- validateResponseHeader (called with `append(opts, VisitAsResponse())` since commit 35101a0) -/
 def checkHeader (canon : String → String) (woOff : Bool) (hdrs : List (String × String)) (h : Hdr) : Option Err :=
   match h.schema with
   | none => if !present canon hdrs h && h.required then some (.hdrMissing h.name) else none
   | some s =>
-    if present canon hdrs h then
-      match h.dec with
+    match lookup (canon h.name) hdrs with
+    | some raw =>
+      match decodeHeader s h.explode raw h.emptyNameDec with
       | .err => some (.hdrDecode h.name)
-      | .nil => if visit ⟨false, woOff⟩ .null s then none else some (.hdrSchema h.name)
-      | .val v => if visit ⟨false, woOff⟩ v s then none else some (.hdrSchema h.name)
-    else if h.required then some (.hdrMissing h.name) else none
+      | .panic => some (.hdrPanic h.name)
+      | .nil => if visit ⟨true, woOff⟩ .null s then none else some (.hdrSchema h.name)
+      | .val v => if visit ⟨true, woOff⟩ v s then none else some (.hdrSchema h.name)
+    | none => if h.required then some (.hdrMissing h.name) else none
 
 def insertHdr (h : Hdr) : List Hdr → List Hdr
   | [] => [h]
@@ -267,8 +447,20 @@ def ctOf (i : Input) : String := (lookup "Content-Type" i.hdrs).getD ""
 
 def skipStatus (status : Int) : Bool := status = 304 || status = 308 || status = 307 || status = 301
 
+/-- parseMediaType: text before the first ';' (no trimming) — the same cut as `base` -/
+def parseMediaType (ct : String) : String := base ct
+
+/-- the decoders that return the bytes as a string -/
+def textDecoder (d : String) : Bool := d = "PlainBodyDecoder" || d = "FileBodyDecoder"
+
+/-- decodeBody: the decoder registered for the media type of the Content-Type header -/
+def decodeBody (reg : List (String × String)) (i : Input) : Dec :=
+  match lookup (parseMediaType (ctOf i)) reg with
+  | none => .err
+  | some d => if textDecoder d then .val (.str i.body) else i.bodyDec
+
 /-- the part of ValidateResponse after the headers -/
-def checkBody (o : Opts) (i : Input) (r : Resp) : Out :=
+def checkBody (reg : List (String × String)) (o : Opts) (i : Input) (r : Resp) : Out :=
   let keep : Out := ⟨none, some i.body⟩
   if o.excludeBody then keep
   else if r.content.isEmpty then keep
@@ -279,11 +471,11 @@ def checkBody (o : Opts) (i : Input) (r : Resp) : Out :=
       | none => keep
       | some s =>
         if i.readFails then ⟨some .bodyRead, none⟩
-        else match i.bodyDec with
+        else match decodeBody reg i with
           | .val v => if visit ⟨true, o.woOff⟩ v s then keep else ⟨some .bodySchema, some i.body⟩
           | _ => ⟨some .bodyDecode, some i.body⟩
 
-def validateResponse (canon : String → String) (o : Opts) (i : Input) : Out :=
+def validateResponse (canon : String → String) (reg : List (String × String)) (o : Opts) (i : Input) : Out :=
   let keep : Out := ⟨none, some i.body⟩
   if i.method = "HEAD" then keep
   else if skipStatus i.status then keep
@@ -293,7 +485,7 @@ def validateResponse (canon : String → String) (o : Opts) (i : Input) : Out :=
     | some r =>
       match firstErr (checkHeader canon o.woOff i.hdrs) (checkedHeaders r) with
       | some e => ⟨some e, some i.body⟩
-      | none => checkBody o i r
+      | none => checkBody reg o i r
 
 /-! ### Specification (from the property text) -/
 
@@ -378,26 +570,28 @@ def Skipped (i : Input) : Prop := i.method = "HEAD" ∨ i.status = 301 ∨ i.sta
 decoder produced no typed value is its text -/
 def specValue : Dec → String → Option J
   | .err, _ => none
+  | .panic, _ => none
   | .nil, raw => some (.str raw)
   | .val v, _ => some v
 
 def HeaderOK (canon : String → String) (woOff : Bool) (hdrs : List (String × String)) (h : Hdr) : Prop :=
   match lookup (canon h.name) hdrs with
   | none => h.required = false
-  | some raw => ∀ s, h.schema = some s → ∃ v, specValue h.dec raw = some v ∧ SatRep woOff v s
+  | some raw => ∀ s, h.schema = some s →
+      ∃ v, specValue (decodeHeader s h.explode raw h.emptyNameDec) raw = some v ∧ SatRep woOff v s
 
-def BodyOK (o : Opts) (i : Input) (r : Resp) : Prop :=
+def BodyOK (reg : List (String × String)) (o : Opts) (i : Input) (r : Resp) : Prop :=
   r.content = [] ∨
   ∃ mt, firstSome r.content (mimeCandidates (ctOf i)) = some mt ∧
-    ∀ s, mt.schema = some s → i.readFails = false ∧ ∃ v, i.bodyDec = .val v ∧ SatRep o.woOff v s
+    ∀ s, mt.schema = some s → i.readFails = false ∧ ∃ v, decodeBody reg i = .val v ∧ SatRep o.woOff v s
 
-def Accept (canon : String → String) (o : Opts) (i : Input) : Prop :=
+def Accept (canon : String → String) (reg : List (String × String)) (o : Opts) (i : Input) : Prop :=
   Skipped i ∨
   match selected i.responses i.status with
   | none => o.strict = false
   | some r =>
     (∀ h, h ∈ r.headers → h.name ≠ "Content-Type" → HeaderOK canon o.woOff i.hdrs h) ∧
-    (o.excludeBody = false → BodyOK o i r)
+    (o.excludeBody = false → BodyOK reg o i r)
 
 /-! executable twin of `Accept` (the oracle of the differential run) -/
 
@@ -407,29 +601,29 @@ def headerOKB (canon : String → String) (woOff : Bool) (hdrs : List (String ×
   | some raw =>
     match h.schema with
     | none => true
-    | some s => match specValue h.dec raw with | some v => satRepB woOff v s | none => false
+    | some s => match specValue (decodeHeader s h.explode raw h.emptyNameDec) raw with | some v => satRepB woOff v s | none => false
 
-def bodyOKB (o : Opts) (i : Input) (r : Resp) : Bool :=
+def bodyOKB (reg : List (String × String)) (o : Opts) (i : Input) (r : Resp) : Bool :=
   r.content.isEmpty ||
   match firstSome r.content (mimeCandidates (ctOf i)) with
   | none => false
   | some mt =>
     match mt.schema with
     | none => true
-    | some s => !i.readFails && (match i.bodyDec with | .val v => satRepB o.woOff v s | _ => false)
+    | some s => !i.readFails && (match decodeBody reg i with | .val v => satRepB o.woOff v s | _ => false)
 
 def skippedB (i : Input) : Bool :=
   i.method = "HEAD" || i.status = 301 || i.status = 304 || i.status = 307 || i.status = 308
 
-def acceptB (canon : String → String) (o : Opts) (i : Input) : Bool :=
+def acceptB (canon : String → String) (reg : List (String × String)) (o : Opts) (i : Input) : Bool :=
   skippedB i ||
   match selected i.responses i.status with
   | none => !o.strict
   | some r =>
     (r.headers.all (fun h => h.name = "Content-Type" || headerOKB canon o.woOff i.hdrs h)) &&
-    (o.excludeBody || bodyOKB o i r)
+    (o.excludeBody || bodyOKB reg o i r)
 
-/-! ### Exclusion predicates (classes in which the code deviates from the property) -/
+/-! ### Where VisitAsResponse matters (helper of `visit_plain_eq_asrep_untouched`; no exclusion class) -/
 
 def declaresWO : Props → Bool
   | .nil => false
@@ -453,14 +647,21 @@ def woTouchedKVs : KVs → Sch → Bool
     || woTouchedKVs r s
 end
 
+/-! ### Exclusion predicates (classes in which the code deviates from the property) -/
+
+/-- the decoding outcome of a declared header on this response (`none`: absent, or described by `content`) -/
+def hdrDec (canon : String → String) (hdrs : List (String × String)) (h : Hdr) : Option Dec :=
+  match h.schema, lookup (canon h.name) hdrs with
+  | some s, some raw => some (decodeHeader s h.explode raw h.emptyNameDec)
+  | _, _ => none
+
 /-- F-C08-1: a present header with a schema whose decoding gives no value is visited as `null` -/
 def hdrDecodedNil (canon : String → String) (hdrs : List (String × String)) (h : Hdr) : Bool :=
-  present canon hdrs h && h.schema.isSome && (match h.dec with | .nil => true | _ => false)
+  match hdrDec canon hdrs h with | some .nil => true | _ => false
 
-/-- F-C08-2: a present header's value reaches a write-only declaration (headers are visited without VisitAsResponse) -/
-def hdrWriteOnly (canon : String → String) (hdrs : List (String × String)) (h : Hdr) : Bool :=
-  present canon hdrs h &&
-  (match h.schema, h.dec with | some s, .val v => woTouched v s | _, _ => false)
+/-- F-C08-5: a present header whose schema is an array without `items`, first item not empty: nil dereference -/
+def hdrArrayNoItems (canon : String → String) (hdrs : List (String × String)) (h : Hdr) : Bool :=
+  match hdrDec canon hdrs h with | some .panic => true | _ => false
 
 def anyHdr (i : Input) (f : Hdr → Bool) : Bool :=
   match selected i.responses i.status with
@@ -468,12 +669,12 @@ def anyHdr (i : Input) (f : Hdr → Bool) : Bool :=
   | some r => r.headers.any (fun h => h.name ≠ "Content-Type" && f h)
 
 def HdrDecodedNil (canon : String → String) (i : Input) : Bool := anyHdr i (hdrDecodedNil canon i.hdrs)
-def HdrNotAsResponse (canon : String → String) (i : Input) : Bool := anyHdr i (hdrWriteOnly canon i.hdrs)
+def HdrArrayNoItems (canon : String → String) (i : Input) : Bool := anyHdr i (hdrArrayNoItems canon i.hdrs)
 
 /-- F-C08-3: empty responses map under IncludeResponseStatus -/
 def EmptyMapStrict (o : Opts) (i : Input) : Bool := i.responses.isEmpty && o.strict
 
 def Excluded (canon : String → String) (o : Opts) (i : Input) : Bool :=
-  HdrDecodedNil canon i || HdrNotAsResponse canon i || EmptyMapStrict o i
+  HdrDecodedNil canon i || HdrArrayNoItems canon i || EmptyMapStrict o i
 
 end KinModel.Response
